@@ -30,6 +30,8 @@ def run(rep, tier):
     linestring_tables(rep, F)
     densify(rep, F)
     densify_containers(rep, F)
+    from . import c07
+    c07.point_kernel(rep, F, rule="R15.5")
 
 
 def table(F, fn, loop_bound=1):
